@@ -40,6 +40,7 @@ type HarnessSpec struct {
 	MaxPaths  int
 	Unwind    int
 	Stubs     map[string]string // target function -> harness function name
+	Mocks     map[string]string // subset of Stubs that is also patched natively (mockey)
 	Doc       string            // bounds text
 	Steps     int64
 	TimeoutS  int
@@ -161,10 +162,18 @@ func DiscoverHarnesses(harnessDir string) ([]*HarnessSpec, map[string][]byte, er
 								spec.NoReplay = v == "1" || v == "true"
 							}
 						}
-					case "stub":
+					case "stub", "mock":
+						// stub: replaced under the engine only (native replays run the real
+						// function); mock: replaced under the engine and, natively, with mockey
 						f := strings.Fields(rest)
 						if len(f) == 2 {
 							spec.Stubs[f[0]] = f[1]
+							if kind == "mock" {
+								if spec.Mocks == nil {
+									spec.Mocks = map[string]string{}
+								}
+								spec.Mocks[f[0]] = f[1]
+							}
 						}
 					case "bounds":
 						spec.Doc = strings.TrimSpace(rest)
